@@ -520,13 +520,17 @@ func (w *world) joinWindow(prefix string) func() bool {
 		}
 		return true
 	}
-	rev, del := w.st.rev, vt.deliveries
+	rev, del, snaps := w.st.rev, vt.deliveries, vt.snapshots
 	recent := vt.deliveries > 0 && time.Since(vt.lastDelivery) <= 5*time.Second
+	// a reload snapshot (the 2nd or a later Get of the range) handed to go-zero a moment ago or
+	// during the call is in flight in the same sense: handleChanges applies it to the listeners
+	// it captured, a subscriber attaching meanwhile may replay the values from before it
+	recent = recent || (vt.snapshots >= 2 && time.Since(vt.lastSnapshot) <= 5*time.Second)
 	lag := !upToDate()
 	return func() bool {
 		// which of two overlapping joins reaches the registry first is the scheduler's choice
 		late := late || w.joinsBegun[prefix] >= 2
-		race := late && (recent || lag || rev != w.st.rev || del != vt.deliveries || !upToDate())
+		race := late && (recent || lag || rev != w.st.rev || del != vt.deliveries || snaps != vt.snapshots || !upToDate())
 		if race {
 			w.r.Probe("late-join-with-events-in-flight")
 		}
